@@ -102,6 +102,16 @@ def osCmd (st : DState) : List (List Char) → Option (DState × List (List Char
              | .error e => pure ({ st with fs := m1 }, [s2l "err-read", s2l (errName e)])
              | .ok d => pure ({ st with fs := m1 }, [s2l "ok", s2l "data", h.name, d.toList]))
         | (m1, .ok _) => pure ({ st with fs := m1 }, [s2l "err", s2l "other"])
+    | "os.fstat", [stack, p] => do
+        -- Open + File.Stat + Close: the name of the handle and the FileInfo it reports
+        let fs := buildFS (parseStack stack)
+        match fs.call st.fs (.open_ p) with
+        | (m1, .error e) => pure ({ st with fs := m1 }, [s2l "err", s2l (errName e)])
+        | (m1, .ok (.handle h)) =>
+          (match fs.hstat m1 h with
+           | .error e => pure ({ st with fs := m1 }, [s2l "err-stat", s2l (errName e)])
+           | .ok i => pure ({ st with fs := m1 }, s2l "ok" :: h.name :: showInfo i))
+        | (m1, .ok _) => pure ({ st with fs := m1 }, [s2l "err", s2l "other"])
     | "os.tree", [root] => some (st, dumpTree st.fs (keyOf root))
     | _, _ => none
 
